@@ -139,6 +139,8 @@ def main():
     io.open = patched_open
     builtins.open = patched_open
 
+    held = []          # spec["hold"]: the caller keeps every result it got (as a program that goes on working with them does)
+
     def do_calls(calls, sink):
         for name, x in calls:
             fn = c08fns.FNS[name]
@@ -146,6 +148,8 @@ def main():
             try:
                 v = fn(x)
                 res = c08fns.canon(v)
+                if spec.get("hold"):
+                    held.append(v)
                 # every key of a partition must be loadable
             except Exception as e:
                 res = ["raise", type(e).__name__, str(e)[:60].split("\n")[0]]
